@@ -81,6 +81,9 @@ impl PerVisibleAlphabetConstraints {
             _ => return Ok(None),
         }
         match constraint {
+            // a permitted alphabet that can be extended is not PER-visible, wherever the
+            // extension marker is written
+            Constraint::Subtype(c) if c.extensible => Ok(None),
             Constraint::Subtype(c) => match &c.set {
                 ElementOrSetOperation::Element(e) => Self::from_subtype_elem(Some(e), string_type),
                 ElementOrSetOperation::SetOperation(s) => Self::from_subtype_elem(
